@@ -152,6 +152,8 @@ fn shard(a: &[String]) {
     std::fs::create_dir_all(&workdir).unwrap();
     let _ = SCRATCH.set(workdir.join("scratch"));
     std::fs::create_dir_all(workdir.join("scratch")).unwrap();
+    // the Python worker of this shard gets a pool size of its own (the extension's pool reads the variable once)
+    std::env::set_var("VERIF_PY_POOL", ["", "1", "2", "3", "", "5", "7", ""][i % 8]);
     engine::install_panic_hook();
     let known: Vec<String> = load_known().into_iter().filter(|k| k.prop == prop.id).map(|k| k.sig).collect();
     let mut ctx = engine::Ctx::new(prop.id, tier, seed, i, n, workdir, known);
